@@ -5,8 +5,10 @@
                    codec_gen.go (table-driven fast path of generated messages)
      slow = true   proto/decode.go unmarshalMessageSlow (reflection path: dynamicpb)
    The modes differ in: the tag bytes kept for an unknown field (fast: re-encoded minimally,
-   slow: raw), and how a known group is read (fast: directed, the same tag loop with
-   groupTag; slow: protowire.ConsumeGroup first, then the content as a message).
+   slow: raw), how a known group is read (fast: directed, the same tag loop with
+   groupTag; slow: protowire.ConsumeGroup first, then the content as a message), and where an
+   end-group tag is noticed (fast: before the field lookup; slow: only by ConsumeFieldValue, i.e.
+   after the depth check of a map field with that number).
 
    Depth: [dep] is Go's remaining depth before the decrement at message entry
    (opts.depth / RecursionLimit): dep = 0 fails with DDepth; a map entry costs one more level.
@@ -290,7 +292,7 @@ Fixpoint msg_decode_msg (slow : bool) (S : schema) (dep : nat) {struct dep} : ms
             | Err _ => DErr DParse
             | Ok (num, typ, r) =>
               if msg_max_num <? num then DErr DParse
-              else if typ =? 4 then (if num =? grp then DOk (acc, r) else DErr DParse)
+              else if (typ =? 4) && negb slow then (if num =? grp then DOk (acc, r) else DErr DParse)
               else
                 let tagraw := if slow then firstn (length bs - length r) bs else enc_tag num typ in
                 match msg_step slow md (msg_decode_msg slow S d) dsub2 tagraw num typ r acc with
